@@ -71,6 +71,21 @@ static auto constexpr kOomdKillCompletionUserXattr = "user.oomd_kill";
 static auto constexpr kOomdKillUuidTrustedXattr = "trusted.oomd_kill_uuid";
 static auto constexpr kOomdKillUuidUserXattr = "user.oomd_kill_uuid";
 
+namespace {
+// Counter xattrs are writable by whoever owns the cgroup (user.*): a value that
+// is not an integer must not throw through the main loop. Count from 0 then.
+int parseXattrCounter(const std::string& str) {
+  if (str.empty()) {
+    return 0;
+  }
+  try {
+    return std::stoi(str);
+  } catch (const std::logic_error&) {
+    return 0;
+  }
+}
+} // namespace
+
 namespace Oomd {
 
 int BaseKillPlugin::init(
@@ -670,7 +685,7 @@ void BaseKillPlugin::reportKillInitiationToXattr(
   const auto reportKillHelperFunc = [this,
                                      &cgroupPath](const std::string& xattr) {
     auto prevXattrStr = getxattr(cgroupPath, xattr);
-    const int prevXattr = std::stoi(prevXattrStr != "" ? prevXattrStr : "0");
+    const int prevXattr = parseXattrCounter(prevXattrStr);
     std::string newXattrStr = std::to_string(prevXattr + 1);
 
     if (setxattr(cgroupPath, xattr, newXattrStr)) {
@@ -689,7 +704,7 @@ void BaseKillPlugin::reportKillCompletionToXattr(
   const auto reportKillHelperFunc = [this, &cgroupPath, numProcsKilled](
                                         const std::string& xattr) {
     auto prevXattrStr = getxattr(cgroupPath, xattr);
-    const int prevXattr = std::stoi(prevXattrStr != "" ? prevXattrStr : "0");
+    const int prevXattr = parseXattrCounter(prevXattrStr);
     std::string newXattrStr = std::to_string(prevXattr + numProcsKilled);
 
     if (setxattr(cgroupPath, xattr, newXattrStr)) {
